@@ -401,3 +401,21 @@ Qed.
 (* the http client's error-reporting flags never reach a no-op backend's status handling *)
 Lemma noop_ignores_error_flags f : noop_backend_status_handler f = HNoOp.
 Proof. reflexivity. Qed.
+
+(* bytes: the client's body is the concatenation of what was copied.  Whatever way the backend
+   cuts the same bytes into chunks (and however many there are), one call delivers the same bytes *)
+Definition bytes_of (l : list chunk) : string := String.concat "" (map snd l).
+
+Lemma noop_bytes_any_chunking cc body1 body2 now0 tmo sched1 sched2 :
+  cc <= 1 -> bytes_of body1 = bytes_of body2 ->
+  let fin1 := run (reader_ctx cc now0 tmo) (init_st cc body1 now0) sched1 in
+  let fin2 := run (reader_ctx cc now0 tmo) (init_st cc body2 now0) sched2 in
+  finished fin1 = true -> finished fin2 = true ->
+  (clock fin1 < now0 + tmo)%Z -> (clock fin2 < now0 + tmo)%Z ->
+  bytes_of (got fin1) = bytes_of body1 /\ bytes_of (got fin1) = bytes_of (got fin2).
+Proof.
+  intros Hcc Hb fin1 fin2 F1 F2 C1 C2.
+  destruct (noop_single cc body1 now0 tmo sched1 Hcc F1 C1) as [G1 _].
+  destruct (noop_single cc body2 now0 tmo sched2 Hcc F2 C2) as [G2 _].
+  fold fin1 in G1. fold fin2 in G2. rewrite G1, G2. split; [reflexivity|exact Hb].
+Qed.
